@@ -387,10 +387,12 @@ pub fn gen_parent(ctx: &mut Ctx, max_leaves: usize) -> Option<ParentCase> {
     let mut leaves = vec![];
     let mut marker = 0;
     for k in 0..n {
-        let sub = match ctx.choose(3) {
+        let sub = match ctx.choose(4) {
             0 => vec![],
             1 => vec!["q".to_string()],
-            _ => vec!["q".to_string(), "r".to_string()],
+            2 => vec!["q".to_string(), "r".to_string()],
+            // a second nested struct next to `q` (sibling nested parents at one level - seed C03-07)
+            _ => vec!["s".to_string()],
         };
         let renamed = ctx.flag();
         let expr = ctx.flag();
